@@ -399,7 +399,18 @@ def run_case(case):
         result["ctxType"] = None if a is None else a._identification.get("action_type")
 
     try:
-        contextvars.Context().run(body)
+        if case["env"].get("warnErrors"):
+            # the application runs with warnings turned into errors (python -W error, pytest's filterwarnings = error) - except
+            # DeprecationWarning, which the library raises itself on internal paths (write_traceback uses the deprecated
+            # MessageType.__call__; recorded in DESIGN section 8 as outside every property)
+            import warnings
+            with warnings.catch_warnings():
+                warnings.simplefilter("error")
+                warnings.simplefilter("ignore", DeprecationWarning)
+                warnings.simplefilter("ignore", PendingDeprecationWarning)
+                contextvars.Context().run(body)
+        else:
+            contextvars.Context().run(body)
     finally:
         dst._destinations, dst._any_added, dst._globalFields = saved_dst
         _errors._error_extraction.registry.clear()
